@@ -299,6 +299,8 @@ var hazardPrograms = []string{
 	"var i = 0; do { if (1 ?? 2) continue; function f3() { return \"called\" } } while (++i < 1); try { $p(f3()) } catch (e) { $p(e.constructor.name) }",
 	"function h(p) { { function p() {} } return typeof p } $p(h(1));",
 	"switch (1) { case 0: function sf() { return 1 } case 1: $p(typeof sf, sf()) } $p(typeof sf);",
+	"var za = 1; try { za++\n($p(1)) } catch (e) { $p(e.constructor.name) } $p(za);",
+	"function* yg() { var x = yield\n+$p(4)\nreturn x } var yi = yg(); $p(yi.next().value, yi.next(5).value);",
 	"$p(typeof q1); { let q1 = 1; { function q1() {} } } $p(typeof q1); { function q2() { return 1 } $p(q2()) } $p(q2()); switch (1) { case 0: function q3() {} } $p(typeof q3); try { throw 0 } catch (q4) { { function q5() {} } } $p(typeof q5); if (1) function q6() {} $p(typeof q6); lbl: function q7() {} $p(typeof q7);",
 	"function g() { 1; 'use strict'; return this === undefined } function h() { ; 'use strict'; return this === undefined } function i() { 'use strict' + ''; return this === undefined } function j() { `use strict`; return this === undefined } $p(g(), h(), i(), j());",
 	"$p(((a, b) => a + b)(1, 2), (a => a)(1), (() => ({}))(), (() => { return {} })(), (async () => 1)() instanceof Promise, ((a = 1, {b} = {b: 2}, ...c) => [a, b, c])());",
@@ -331,7 +333,7 @@ var hazardPrograms = []string{
 // therefore run last and in few variants, so that they cannot crowd other
 // failures out of the failure list)
 func replaysKnownFinding(src string) bool {
-	for _, m := range []string{"use\\x20strict", "use\\u0020strict", "('use strict')", "'a' + 'b'; 'use strict'", "continue; function f", "function h(p) { { function p()", "case 0: function sf()"} {
+	for _, m := range []string{"use\\x20strict", "use\\u0020strict", "('use strict')", "'a' + 'b'; 'use strict'", "continue; function f", "function h(p) { { function p()", "case 0: function sf()", "za++\n(", "yield\n+"} {
 		if strings.Contains(src, m) {
 			return true
 		}
@@ -426,6 +428,12 @@ func glueNodeLiterals(r *Rng, st *Stats, n int) {
 		}
 		if strings.Contains(c.src, "case 0: function sf()") && strings.Contains(b.String(), "ReferenceError") {
 			input["scenario"] = "switch-case-block-function-let-in-unentered-clause"
+		}
+		if strings.Contains(c.src, "za++\n(") && strings.Contains(c.out, "(za++)") {
+			input["scenario"] = "asi-after-postfix-update-before-bracket-paren-template"
+		}
+		if strings.Contains(c.src, "yield\n+") && strings.Contains(c.out, "(yield)") {
+			input["scenario"] = "yield-followed-by-newline-continued-as-operand"
 		}
 		if strings.Contains(c.src, "function h(p) { { function p()") && hoistsBlockFunction(c.out) {
 			input["scenario"] = "annexb-block-function-hoisted-over-parameter-name"
@@ -706,6 +714,82 @@ func glueAnnexB(r *Rng, st *Stats, n int) {
 		}
 		if stillDiffers(c.Src, outs[k]) {
 			st.Fail("behaviour-differs", input, out.String(), nat.String())
+		}
+	}
+}
+
+// ---------------------------------------------------------------------------
+// newline-sensitive programs (hlib/jsgen_c01.go GenASI)
+func glueASI(r *Rng, st *Stats, n int) {
+	var cs []ASICase
+	var outs []string
+	var progs []string
+	for k := 0; k < n; k++ {
+		c := GenASI(r)
+		o := api.TransformOptions{Loader: api.LoaderJS, LogLevel: api.LogLevelSilent, MinifyWhitespace: r.Chance(50)}
+		res := api.Transform(c.Src, o)
+		out := ""
+		if len(res.Errors) > 0 {
+			out = "\x00ERR:" + res.Errors[0].Text
+		} else {
+			out = string(res.Code)
+		}
+		cs = append(cs, c)
+		outs = append(outs, out)
+		progs = append(progs, c.Src, out)
+	}
+	results, err := RunNodeScripts(progs, 2000)
+	if err != nil {
+		st.Fail("node-oracle-unavailable", err.Error(), nil, nil)
+		return
+	}
+	reported, reportedY := 0, 0
+	for k, c := range cs {
+		a, b := results[2*k], results[2*k+1]
+		if oracleNoise(a) || oracleNoise(b) {
+			st.Histogram["oracle-noise"]++
+			continue
+		}
+		if a.Err() == "SyntaxError" && len(a.Log) == 0 {
+			st.Histogram["asi-invalid-combination"]++
+			continue
+		}
+		st.Note("asi:"+c.Shape, c.Src, true)
+		input := map[string]string{"program": c.Src, "output": outs[k], "shape": c.Shape}
+		if strings.HasPrefix(outs[k], "\x00") {
+			if c.PostfixLT {
+				st.Histogram["known-shape:asi-after-postfix-update(rejected)"]++
+				continue
+			}
+			if c.YieldLT {
+				// same root cause as known finding J: the next line is read as a
+				// continuation of `yield` (here `/` as a division) and then fails to parse
+				st.Histogram["known-shape:yield-newline-continued(rejected)"]++
+				continue
+			}
+			st.Fail("valid-program-rejected", input, outs[k][1:], "accepted")
+			continue
+		}
+		if a.Same(b) {
+			continue
+		}
+		if c.PostfixLT {
+			st.Histogram["known-shape:asi-after-postfix-update"]++
+			reported++
+			if reported > 1 {
+				continue
+			}
+			input["scenario"] = "asi-after-postfix-update-before-bracket-paren-template"
+		} else if c.YieldLT && strings.Contains(outs[k], "(yield)") {
+			st.Histogram["known-shape:yield-newline-continued"]++
+			reportedY++
+			if reportedY > 1 {
+				continue
+			}
+			input["scenario"] = "yield-followed-by-newline-continued-as-operand"
+		}
+		if stillDiffers(c.Src, outs[k]) {
+			st.Fail("behaviour-differs", input, b.String(), a.String())
 		}
 	}
 }
